@@ -65,7 +65,7 @@ class Interp:
             if self.kind == "buffer":
                 self.src = BufferAudioSource(self.data, sr, sw, ch)
             elif self.kind in ("raw", "wav"):
-                c = dict(cfg, kind=self.kind + "_lazy")
+                c = dict(cfg, kind=self.kind + "_lazy", rawname=cfg.get("rawname", ".raw"))
                 path, _kw, self.paths = c10.make_input(c, self.data)
                 self.src = RawAudioSource(path, sr, sw, ch) if self.kind == "raw" else WaveAudioSource(path)
             elif self.kind == "stdin":
@@ -278,7 +278,9 @@ def check_case(case, rec):
 @st.composite
 def config(draw, kinds=KINDS):
     return dict(kind=draw(st.sampled_from(kinds)), sr=draw(st.sampled_from([8, 10, 100, 1000, 16000, 44100])),
-                sw=draw(st.sampled_from([1, 2, 4])), ch=draw(st.integers(1, 3)), N=draw(st.integers(0, 40)),
+                sw=draw(st.sampled_from([1, 2, 4])), ch=draw(st.integers(1, 3)),
+                N=draw(st.one_of(st.integers(0, 40), st.integers(0, 40), st.sampled_from([1400, 2100, 4096, 5000]))),
+                rawname=draw(st.sampled_from([".raw", ".pcm", "", ".bin"])),
                 salt=draw(st.integers(0, 10**6)),
                 chunks=draw(st.lists(st.integers(1, 13), min_size=1, max_size=4)))
 
@@ -300,6 +302,11 @@ def make_machine(kinds):
         @rule(n=st.integers(1, 12))
         def read(self, n):
             self.it.apply(["read", n])
+
+        @rule(n=st.sampled_from([100, 127, 333, 500, 1000, 1365, 2048]))
+        def read_big(self, n):
+            if self.it.N > 1000:
+                self.it.apply(["read", n])
 
         @rule()
         def read_zero(self):
@@ -360,6 +367,7 @@ def explicit_cases():
                              ["pos", 13], ["pos", -13], ["pos_s", -0.5], ["get_pos"], ["pos_ms", 700], ["read_all", None],
                              ["read_all", -1], ["close"], ["read", 1], ["open"], ["read", 3], ["rewind"], ["read", 1]]},
         {"cfg": dict(cfg, kind="raw"), "ops": [["read", 1], ["open"], ["read", 5], ["read", 0], ["read", 20], ["read", 1], ["close"], ["read", 1]]},
+        {"cfg": dict(cfg, kind="raw", N=2100, sw=4, ch=3, rawname=".pcm"), "ops": [["open"], ["read", 127], ["read", 333], ["read", 127], ["read", 1000], ["read", 1000], ["read", 5]]},
         {"cfg": dict(cfg, kind="wav"), "ops": [["open"], ["read", 11], ["read_all", -2], ["read_all", None], ["read", 3]]},
         {"cfg": dict(cfg, kind="stdin", sw=4), "ops": [["read", 1], ["open"], ["read", 5], ["read", 7], ["read", 1], ["read", 1]]},
         {"cfg": dict(cfg, kind="pipe", sw=4, ch=3, chunks=[5, 1, 7]), "ops": [["open"], ["read", 5], ["read", 6], ["read", 4], ["read", 1]]},
